@@ -199,7 +199,11 @@ class TextGen:
                              '#[ts(rename = "alpha")]', "#[serde(default)]"])
             if shape in ("tuple", "enum-unit", "only-flattened-enum", "internal-newtype-inlined-enum"):
                 fctx = None
-            cctx = r.choice([None, None, None, '#[ts(rename_all = "lowercase")]', "#[ts(optional_fields)]", '#[ts(tag = "t")]']) if shape == "named" else None
+            cctx = r.choice([None, None, None, '#[ts(rename_all = "lowercase")]', "#[ts(optional_fields)]", '#[ts(tag = "t")]',
+                             # the same kind of attribute in its serde spelling (one or two lists), and one ts-rs does not know
+                             '#[serde(rename_all = "lowercase")]', '#[serde(tag = "t")] #[serde(rename_all = "lowercase")]',
+                             "#[serde(deny_unknown_fields)]"]) if shape == "named" else \
+                r.choice([None, None, '#[serde(rename_all = "snake_case")]', "#[serde(deny_unknown_fields)]"]) if shape in ("enum-struct-variant", "enum-unit") else None
             alpha_ty = Ty("opt", args=[prim("i32")]) if fctx == "#[ts(optional)]" else prim("i32")
             fextra = [fctx] if fctx else []
             cextra = [cctx] if cctx else []
@@ -212,13 +216,13 @@ class TextGen:
                     it = self.mk("named", docs=cdocs, extra_attrs=list(cextra),
                                  fields=[Field("alpha", alpha_ty, docs=fdocs, extra_attrs=list(fextra)), Field("beta", Ty("opt", args=[prim("String")]))])
                 elif shape == "enum-struct-variant":
-                    it = self.mk("enum", docs=cdocs, tag="kind", variants=[
+                    it = self.mk("enum", docs=cdocs, tag="kind", extra_attrs=list(cextra), variants=[
                         Variant("First", "struct", [Field("alpha", alpha_ty, docs=fdocs, extra_attrs=list(fextra))], docs=vdocs),
                         Variant("Second", "unit")])
                 elif shape == "tuple":
                     it = self.mk("tuple", docs=cdocs, fields=[Field(None, prim("i32")), Field(None, prim("bool"))])
                 elif shape == "enum-unit":
-                    it = self.mk("enum", docs=cdocs, variants=[Variant("First", "unit", docs=vdocs), Variant("Second", "unit")])
+                    it = self.mk("enum", docs=cdocs, extra_attrs=list(cextra), variants=[Variant("First", "unit", docs=vdocs), Variant("Second", "unit")])
                 elif shape == "internal-newtype-inlined-enum":
                     # the documented enum is inlined as the payload of a newtype variant of an internally tagged enum: a union,
                     # which the tag object is intersected with; the comments inside are no part of that decision
@@ -255,7 +259,7 @@ class TextGen:
                                                          docs=fdocs if position == "flattened-field" else [])])
                 self.add(it, position=position, cls=(t[0] if t else "none"), text=(t[1] if t else None), group=f"{self.prefix}g{gi}",
                          variant=vi, form=effective_form(t, form), shape=shape,
-                         ctx=((fctx or "").split("(")[-1].split(" ")[0].rstrip(")]") or None) if shape != "named" or not cctx else
+                         ctx=((fctx or "").split("(")[-1].split(" ")[0].rstrip(")]") or None) if not cctx else
                          "+".join(x.split("(")[-1].split(" ")[0].rstrip(")]") for x in (fctx, cctx) if x),
                          documents=("alpha" if position in ("field", "variant-field") else ("@container" if position == "container" else None)))
 
